@@ -6,6 +6,7 @@ import TrompModel.Model.World
 import Driver.Fmt
 import Driver.RangeDrv
 import Driver.MatcherDrv
+import Driver.PrintDrv
 
 open Tromp
 
@@ -134,6 +135,7 @@ def main (args : List String) : IO UInt32 := do
   | ["world"] => Driver.worldLoop stdin stdout {}; return 0
   | ["range"] => Driver.rangeLoop stdin stdout; return 0
   | ["matcher"] => Driver.matcherLoop stdin stdout; return 0
+  | ["print"] => Driver.printLoop stdin stdout; return 0
   | _ =>
     IO.eprintln "usage: tmodel world < script"
     return 2
